@@ -27,6 +27,17 @@ template <class T> struct MallocAlloc {
 };
 
 struct Entry { uint64_t id; size_t size; bool array; bool sut; bool aligned; uint32_t epoch; };
+#ifdef SIMRT_ASAN
+const size_t RZ = 0;          // AddressSanitizer has its own redzones (ours would hide overruns from it)
+#else
+const size_t RZ = 32;         // guard bytes before and after every block: overruns are detected deterministically
+#endif
+const unsigned char RZ_BYTE = 0xFA;
+inline bool rz_intact(const void *user, size_t size) {
+    const unsigned char *u = (const unsigned char *)user;
+    for (size_t i = 0; i < RZ; i++) if (u[-(ptrdiff_t)RZ + (ptrdiff_t)i] != RZ_BYTE || u[size + i] != RZ_BYTE) return false;
+    return true;
+}
 typedef std::unordered_map<const void *, Entry, std::hash<const void *>, std::equal_to<const void *>,
                            MallocAlloc<std::pair<const void *const, Entry>>> Ledger;
 typedef std::unordered_set<const void *, std::hash<const void *>, std::equal_to<const void *>,
@@ -89,11 +100,13 @@ void *do_alloc(size_t size, bool array, size_t align, bool nothrow) {
     }
     if (fail) { if (nothrow) return nullptr; throw std::bad_alloc(); }
     void *p;
-    if (align > alignof(std::max_align_t)) {
+    const bool over_aligned = align > alignof(std::max_align_t);
+    if (over_aligned) {
         size_t rounded = (size + align - 1) / align * align;
         p = std::aligned_alloc(align, rounded ? rounded : align);
     } else {
-        p = std::malloc(size ? size : 1);
+        p = std::malloc(size + 2 * RZ + (size ? 0 : 1));
+        if (p && RZ) { std::memset(p, RZ_BYTE, RZ); p = (char *)p + RZ; std::memset((char *)p + size, RZ_BYTE, RZ); }
     }
     if (!p) { if (nothrow) return nullptr; throw std::bad_alloc(); }
     Lock l;
@@ -122,17 +135,18 @@ void do_free(void *p, bool array) {
     if (e.array != array)
         note_violation(s, HV_FORM_MISMATCH, array ? "delete[] of a block from scalar new" : "scalar delete of a block from new[]", &e);
     s->ledger.erase(it);
+    if (RZ && !e.aligned && !rz_intact(p, e.size)) note_violation(s, HV_OVERRUN, "bytes just outside a heap block were overwritten (detected when it was released):", &e);
     if (e.sut && s->run_active && e.epoch == s->epoch && s->live_sut_this_run) --s->live_sut_this_run;
 #ifndef SIMRT_ASAN
     if (s->run_active) {
         s->freed.insert(p);
         if (e.sut) std::memset(p, s->fill_freed, e.size);
-        if (s->policy == HEAP_QUARANTINE && e.sut) { s->quarantine.push_back(p); return; }
+        if (s->policy == HEAP_QUARANTINE && e.sut) { s->quarantine.push_back(e.aligned ? p : (char *)p - RZ); return; }
     }
 #else
     if (s->run_active) s->freed.insert(p);
 #endif
-    std::free(p);
+    std::free(e.aligned ? p : (char *)p - RZ);
 }
 
 } // namespace
@@ -171,6 +185,20 @@ bool heap_lookup(const void *p, BlockInfo *out) {
     if (out) { out->id = it->second.id; out->size = it->second.size; out->array = it->second.array;
                out->sut = it->second.sut; out->run_epoch = it->second.epoch; }
     return true;
+}
+
+bool heap_redzones_intact(char *detail, size_t n) {
+    State *s = S(); Lock l;
+    if (!RZ) return true;
+    uint64_t worst = 0; size_t wsize = 0;
+    for (auto &kv : s->ledger) {
+        const Entry &e = kv.second;
+        if (!e.sut || e.aligned || e.epoch != s->epoch) continue;
+        if (!rz_intact(kv.first, e.size) && (worst == 0 || e.id < worst)) { worst = e.id; wsize = e.size; }
+    }
+    if (!worst) return true;
+    if (detail && n) std::snprintf(detail, n, "bytes just outside live heap block#%llu (size %zu) were overwritten", (unsigned long long)worst, wsize);
+    return false;
 }
 
 bool heap_was_freed(const void *p) { State *s = S(); Lock l; return s->freed.count(p) != 0; }
